@@ -353,6 +353,10 @@ def queries(tier):
         for n in lens(3 if th else 2, 1):
             addc('Purl', ['pkg:%s/ns/' % ty, ('hole', 'h', n)])
         addc('Purl', ['pkg:%s/' % ty, ('hole', 'h', 2), '/n@1?k=v#s'])
+        if ty in ('nuget', 'pypi'):
+            # names mixing an ASCII capital with a following non-ASCII letter (the name rule applies to the whole name)
+            addc('Purl', ['pkg:%s/ns/A' % ty, ('hole', 'h', 2)])
+            addc('Purl', ['pkg:%s/ns/' % ty, ('hole', 'h', 2), 'A'])
     return qs
 
 
@@ -385,6 +389,10 @@ def confirm(v, resp):
         return '%r: type/namespace/version/subpath %r differ from the strict reading' % (text, (hx(o['type']), hx(o['ns']), hx(o['ver']), hx(o['sub'])))
     if T != 'Purl' and hx(o['name']) != bytes(R.name):
         return '%r: name %r differs from %r' % (text, hx(o['name']), bytes(R.name))
+    if T == 'Purl' and 'expect_lower' in resp:
+        want = hx(resp['expect_lower']) if tyname == 'nuget' else hx(resp['expect_pypi']) if tyname == 'pypi' else bytes(R.name)
+        if hx(o['name']) != want:
+            return '%r: %s name %r differs from the type\'s name rule applied to the written name (%r)' % (text, tyname, hx(o['name']), want)
     want = sorted((bytes(k), bytes(x)) for k, x in R.quals)
     got = [(hx(k), hx(x)) for k, x in o['quals']]
     if [k for k, _ in got] != [k for k, _ in want] or any(a != b for a, b in zip(got, want) if a[0] != b'checksum'):
